@@ -11,7 +11,7 @@ import time
 from pathlib import Path
 
 VERIF = Path(__file__).resolve().parent.parent
-COQ = VERIF / "coq"
+COQ = Path(os.environ.get("VERIF_COQ_DIR", str(VERIF / "coq")))      # scratch runs against a changed tree use a private copy
 REPO = Path(os.environ.get("VERIF_REPO", "/repo"))
 PY = "/venv/bin/python"
 NCPU = min(16, os.cpu_count() or 4)
